@@ -77,9 +77,9 @@ pub fn replay(case: &Value) -> Vec<Violation> {
         "c07" | "c07_block" | "c07_api" => c07::replay(case),
         "c14_schedule" | "c14_history" | "c14_global" | "c14_names" => c14::replay(case),
         "c11_issuer" | "c11_holder" => c11::replay(case),
-        "c04" | "c04_text" => c04::replay(case),
+        "c04" | "c04_text" | "c04_cross" => c04::replay(case),
         "c08" | "c08_after" => c08::replay(case),
-        "c02" | "c02_after" | "c02_key" | "c02_control" | "c02_iss" | "c02_iss_pair" => c02::replay(case),
+        "c02" | "c02_kid" | "c02_after" | "c02_key" | "c02_control" | "c02_iss" | "c02_iss_pair" => c02::replay(case),
         k => {
             eprintln!("replay: unknown case kind {k}");
             vec![]
